@@ -50,26 +50,48 @@ type ListSource struct {
 	Reader string           `json:"reader,omitempty"`
 	Data   []byte           `json:"data,omitempty"`
 	Spec   *corpus.ListSpec `json:"spec,omitempty"`
+	// Ops: in-memory transformations applied after the list was read / built (the list a writer gets is often
+	// the result of a pipeline: Fragment leaves items that share their Lines, Merge items of two documents, ...)
+	Ops []api.Op `json:"ops,omitempty"`
 }
 
-// Build materialises the list (nil when the source document does not parse).
+// Build materialises the list (nil when the source document does not parse or a transformation panics).
 func (ls ListSource) Build() *astisub.Subtitles {
+	var s *astisub.Subtitles
 	if ls.Spec != nil {
-		return ls.Spec.Build()
+		s = ls.Spec.Build()
+	} else {
+		var err error
+		var p string
+		s, err, p = api.Read(ls.Reader, bytes.NewReader(ls.Data))
+		if err != nil || p != "" {
+			return nil
+		}
 	}
-	s, err, p := api.Read(ls.Reader, bytes.NewReader(ls.Data))
-	if err != nil || p != "" {
-		return nil
+	for _, op := range ls.Ops {
+		var other *astisub.Subtitles
+		if op.Name == "merge" {
+			o := ls
+			o.Ops = nil
+			other = o.Build() // merged with a second, independent copy of itself
+		}
+		if api.Apply(op, s, other) != "" {
+			return nil
+		}
 	}
 	return s
 }
 
 // Name is a short label.
 func (ls ListSource) Name() string {
+	n := ls.Doc
 	if ls.Spec != nil {
-		return ls.Spec.Name
+		n = ls.Spec.Name
 	}
-	return ls.Doc
+	for _, op := range ls.Ops {
+		n += "|" + op.Name
+	}
+	return n
 }
 
 type c18Limits struct {
@@ -240,7 +262,7 @@ func completeSink(writer string, out []byte, c int, tail string) string {
 		if tail != "" && !bytes.Contains(out[max(0, len(out)-240):], []byte(tail)) {
 			return fmt.Sprintf("SSA output does not end with the text of the last cue (%q not in the final bytes)", tail)
 		}
-	case "ttml", "ttml-noindent":
+	case "ttml", "ttml-noindent", "ttml-tab":
 		d := xml.NewDecoder(bytes.NewReader(out))
 		depth, ps, closedRoot := 0, 0, false
 		for {
